@@ -1,0 +1,92 @@
+//! Verification hook registry (feature `verif`, off by default; add-only).
+//!
+//! Two global callbacks that an external harness may register:
+//!
+//! * `fs_effect`   - invoked inside `FileBlobWriter::{store,delete}` immediately before and
+//!                   immediately after every primitive file-system operation (mkdir, create,
+//!                   write, sync, rename, remove), in the thread that performs it.
+//! * `store_event` - invoked at the state transitions of the storage state machine (WAL id
+//!                   allocation, partition registration/removal in the catalogue, cursor advance,
+//!                   begin/end of a WAL flush).
+//!
+//! With no callback registered every hook is a read of an `RwLock<Option<..>>` and nothing else.
+//! Nothing here changes behaviour.
+use std::path::Path;
+use std::sync::{Arc, RwLock};
+
+/// One primitive file-system effect.
+#[derive(Debug)]
+pub struct FsEffect<'a> {
+    /// false: the operation is about to be performed; true: it has been performed (successfully)
+    pub after: bool,
+    /// "mkdir" | "create" | "write" | "sync" | "rename" | "remove"
+    pub op: &'static str,
+    /// file operated on (the temp file for create/write/sync, the source for rename)
+    pub path: &'a Path,
+    /// rename target
+    pub to: Option<&'a Path>,
+    /// number of bytes (write)
+    pub len: usize,
+}
+
+pub type FsCallback = Arc<dyn Fn(&FsEffect) + Send + Sync>;
+
+static FS_CALLBACK: RwLock<Option<FsCallback>> = RwLock::new(None);
+
+pub fn set_fs_effect(cb: Option<FsCallback>) {
+    *FS_CALLBACK.write().unwrap() = cb;
+}
+
+pub fn fs_effect(after: bool, op: &'static str, path: &Path, to: Option<&Path>, len: usize) {
+    let cb = FS_CALLBACK.read().unwrap().clone();
+    if let Some(cb) = cb {
+        cb(&FsEffect {
+            after,
+            op,
+            path,
+            to,
+            len,
+        });
+    }
+}
+
+/// Transitions of the storage state machine.
+#[derive(Clone, Debug, PartialEq, Eq)]
+pub enum StoreEvent {
+    /// `MetaStore::add_wal_segment` handed out this id (ingestion, under the WAL lock)
+    AddWalSegment { id: u64 },
+    /// `MetaStore::register_wal_segment` (recovery found a segment at or above the cursor)
+    RegisterWalSegment { id: u64 },
+    /// `MetaStore::insert_partition`; `subpartitions` = (key, size_bytes)
+    InsertPartition {
+        table: String,
+        id: u64,
+        offset: usize,
+        len: usize,
+        subpartitions: Vec<(String, u64)>,
+    },
+    /// `MetaStore::delete_partitions`
+    DeletePartitions { table: String, ids: Vec<u64> },
+    /// `MetaStore::advance_earliest_unflushed_wal_id`
+    AdvanceCursor { to: u64 },
+    /// `Storage::unflushed_wal_ids` (first storage call of a WAL flush, under the WAL lock)
+    FlushBegin { start: u64, end: u64 },
+    /// end of `Storage::delete_wal_segments` (last storage call of a WAL flush)
+    FlushEnd,
+}
+
+pub type StoreCallback = Arc<dyn Fn(&StoreEvent) + Send + Sync>;
+
+static STORE_CALLBACK: RwLock<Option<StoreCallback>> = RwLock::new(None);
+
+pub fn set_store_event(cb: Option<StoreCallback>) {
+    *STORE_CALLBACK.write().unwrap() = cb;
+}
+
+/// The event is only constructed when a callback is registered.
+pub fn store_event<F: FnOnce() -> StoreEvent>(ev: F) {
+    let cb = STORE_CALLBACK.read().unwrap().clone();
+    if let Some(cb) = cb {
+        cb(&ev());
+    }
+}
